@@ -47,7 +47,8 @@ EqOK(ev, post) ==
 \* C20: a binding call that succeeds was entitled to
 BindingOK(ev, pre) ==
   LET c == ev.call o == pre[c.h] IN
-  IF c.op = "add_factor" /\ ev.out = "ok" THEN
+  IF "nodrift" \in DOMAIN ev THEN "ok"        \* events without recorded arguments
+  ELSE IF c.op = "add_factor" /\ ev.out = "ok" THEN
        IF ~c.el.t THEN "BindOnlyTerminals"
        ELSE IF \E f \in o.facs : f.el.name = c.el.name THEN "BindOnlyUnboundLabel"
        ELSE IF ~FactorFits(o, c.el, c.fac) THEN "BindOnlyIfArityAndDomainsMatch"
@@ -79,8 +80,10 @@ Tags(ev) ==
   <<ev.call.op, IF ev.call.h \in {"g1", "g2"} THEN "target_graph" ELSE "target_hrg">>
      \o (IF B # {} THEN <<IF KindTag(post[CHOOSE h \in B : TRUE]) = "graph" THEN "broken_graph" ELSE "broken_hrg">> ELSE <<>>)
 
-Drift(ev) == LET r == HeapApply(AsModel(States[ev.pre]), ToCall(ev.call)) IN
-             r.out # ev.out \/ Resolve(r.s) # States[ev.post]
+\* (events recorded from the repository's own tests carry no arguments: no drift measurement)
+Drift(ev) == IF "nodrift" \in DOMAIN ev THEN FALSE
+             ELSE LET r == HeapApply(AsModel(States[ev.pre]), ToCall(ev.call)) IN
+                  r.out # ev.out \/ Resolve(r.s) # States[ev.post]
 
 Judge == LET ev == Cases[tid] IN
          PrintT(ToJson([gtid |-> ev.gtid, v |-> Clause(ev), tags |-> Tags(ev), drift |-> Drift(ev)]))
